@@ -498,7 +498,6 @@ def run_hook(case):
         sig2, started2, cbreak2 = observe()
         second = {"out": out2, "shown": S.shown[nshown:], "started": started2, "sig": sig2,
                   "term": dict(replay_modes(tr), cbreak=cbreak2)}
-    del tr[ntrace:]
     shown1 = S.shown[:nshown]
     for s in sigs:
         signal.signal(s, signal.SIG_DFL)
@@ -519,7 +518,7 @@ def run_hook(case):
         except OSError:
             pass
     return {"trace": tr, "out": out, "sig": final, "started": started, "ncb": ncb1, "cbreak": cbreak,
-            "shown": shown1, "second": second}
+            "shown": shown1, "second": second, "ntr1": ntrace}
 
 
 def run_plain(case):
@@ -1011,11 +1010,20 @@ class C12(core.Check):
                   "pre-started or not), EVERY script (rounds of key / mouse / resize / alarm / pipe / file events, or get_input "
                   "results) and EVERY fault plan (callback invocation index -> ExitMainLoop | exception e), no bound: "
                   "(1) the callbacks and screen.draw_screen calls are exactly the demanded sequence (filter, then per key the "
-                  "topmost widget and unhandled_input iff not handled, arrival order, render+draw after every round) cut "
+                  "topmost widget - the open pop-up of a PopUpLauncher under pop_ups=True, else the body; proved for every "
+                  "history of open / close / reopen: popup_gets_the_keys_exactly_while_open, and PopUpTarget's _pop_up / "
+                  "_current_widget bookkeeping never gets out of step - and unhandled_input iff not handled, arrival order, "
+                  "render+draw after every round) cut "
                   "right after the first faulting invocation; (2) a first fault ExitMainLoop makes run() return normally, a "
                   "first fault `raise e` makes exactly e leave run(), and nothing else can leave run(); (3) the display is "
                   "stopped and every terminal mode, the tty settings and the SIGWINCH/SIGTSTP/SIGCONT handlers (whatever they "
-                  "were) are as before run() on every path (always_restored_full).  These are theorems about the "
+                  "were) are as before run() on every path (always_restored_full); (4) run() again on the same MainLoop and "
+                  "Screen: the first session leaves a restartable state on every path - also after an exception at any callback "
+                  "index, where the one thing left behind is that run's idle callback (MainLoop.stop() is not called) - and "
+                  "from ANY restartable state run() delivers in order (left-over alarms first, one redraw per registered idle "
+                  "callback), ends normally on ExitMainLoop, propagates any other exception unchanged, restores the terminal "
+                  "and is restartable again (first_run_leaves_a_restartable_state, run_again_from_any_restartable_state: any "
+                  "number of runs, any fault point).  These are theorems about the "
                   "MODEL of urwid's control flow (it includes Screen.draw_screen's 'nothing changed' shortcut: screen_buf / "
                   "_screen_buf_canvas, invalidated by clear(), stop() and SIGWINCH).  The model is tied to the code by exact correspondence of the full call trace "
                   "(screen calls, DEC private mode writes in write order, callbacks), outcome, final modes and signal handlers "
@@ -1036,8 +1044,8 @@ class C12(core.Check):
             "the raw-screen sessions run() a second time on the same loop and screen; at every wait the bytes written so far, "
             "decoded by a small terminal, must show the widget state (Screen.clear() garbles that terminal: forced repaint); "
             "a key typed one byte per read inside complete_wait followed by silence (no phantom 'esc'); pop_ups=True with a "
-            "PopUpLauncher whose pop-up widget is cached: open / close / open again x every fault index (oracle only: the open "
-            "pop-up is the topmost widget); second run() also after a first run that ended with a propagated exception; "
+            "PopUpLauncher whose pop-up widget is cached: open / close / open again x every fault index (model + oracle: the "
+            "open pop-up is the topmost widget), also in random sessions (1 in 5) and on the plain screen; second run() also after a first run that ended with a propagated exception; "
             "kind pty: real screen on a pty x each installed event loop x fault at callback indices of a fixed "
             "chained session (keys, mouse, pipe, the redraw key ctrl l, second run()).  non-trivial = at least one user callback was invoked; distinct by hash of (case, outcome)")
     trusted_base = [
@@ -1049,8 +1057,13 @@ class C12(core.Check):
     ]
     assumptions = [
         "user callbacks only return or raise: they do not call screen.stop()/loop.stop(), install signal handlers or schedule alarms",
-        "the screen is stopped (or started by the application through screen.start()) when run() is entered; terminal in its initial modes",
-        "pop_ups=True wraps a urwid.Widget (which always has mouse_event)",
+        "the screen is stopped (or started by the application through screen.start()) when the FIRST run() is entered; terminal in "
+        "its initial modes; later runs start from what the earlier run left (modelled, second-run trace compared exactly)",
+        "INPUT_DESCRIPTORS_CHANGED handlers: the loop over the connected handlers is modelled by its closed form (k times unhook, hook)",
+        "within a round descriptor events are served before due alarms (select loop; the generators order them so)",
+        "pop_ups=True wraps a urwid.Widget (which always has mouse_event); a PopUpLauncher is used below a PopUpTarget "
+        "(wf_configb, a boolean premise of the theorems); the pop-up widget is cached by create_pop_up(), handles a fixed "
+        "set of keys, closes on 'x' and ignores the mouse; the launcher opens it on 'o'",
         "pty / termios / signal delivery / third-party loop runtimes are observed (oracle), not modelled",
     ]
 
@@ -1161,8 +1174,8 @@ class C12(core.Check):
         tr = res["trace"]
         return {"out": res["out"], "started": res["started"], "ncb": res["ncb"],
                 "sig": res["sig"] if case["kind"] == "hook" else list(case["cfg"].get("sig", [0, 0, 0])),
-                "term": dict(replay_modes(tr), cbreak=res.get("cbreak", 0)), "trace": tr,
-                "shown": res.get("shown", []), "second": res.get("second")}
+                "term": dict(replay_modes(tr[:res.get("ntr1", len(tr))]), cbreak=res.get("cbreak", 0)), "trace": tr,
+                "ntr1": res.get("ntr1", len(tr)), "shown": res.get("shown", []), "second": res.get("second")}
 
     # ---------- model wire format ----------
     def encode(self, case):
@@ -1184,6 +1197,7 @@ class C12(core.Check):
         l += [b(wc.get("cursor"))]
         l += list(cfg.get("sig", [0, 0, 0]))
         l += [b(cfg.get("launcher")), len(wc.get("pop_keys", []))] + list(wc.get("pop_keys", []))
+        l += [b(cfg.get("second_run") and case["kind"] == "hook")]
         plan = sorted((int(k), v) for k, v in case.get("plan", {}).items())
         l += [len(plan)] + [x for kv in plan for x in kv]
         if case["kind"] == "hook":
@@ -1211,8 +1225,9 @@ class C12(core.Check):
         return l
 
     def decode(self, case, ints):
-        try:
-            it = iter(ints)
+        names = ["alt", "cursor", "mouse", "mouse2", "mouse6", "paste", "focus", "cbreak", "plain"]
+
+        def summary(it):
             kind, val = next(it), next(it)
             if kind == 0:
                 out = ["ok"]
@@ -1225,8 +1240,16 @@ class C12(core.Check):
             started = bool(next(it))
             ncb = next(it)
             sig = [next(it), next(it), next(it)]
-            names = ["alt", "cursor", "mouse", "mouse2", "mouse6", "paste", "focus", "cbreak", "plain"]
             term = {k: next(it) for k in names}
+            return out, started, ncb, sig, term
+        try:
+            it = iter(ints)
+            out, started, ncb, sig, term = summary(it)
+            second = None
+            if next(it):
+                out2, started2, _ncb2, sig2, term2 = summary(it)
+                second = {"out": out2, "started": started2, "sig": sig2, "term": term2}
+            ntr1 = next(it)
             ntr = next(it)
             trace = []
             for _ in range(ntr):
@@ -1234,15 +1257,11 @@ class C12(core.Check):
                 trace.append([next(it) for _ in range(ln)])
         except StopIteration:
             return {"malformed": ints[:60]}
-        # what the property demands where the model is silent: at every wait the terminal shows the widget;
-        # a second run() on the same loop and screen behaves like the first
-        shown = [1] * sum(1 for t in trace if t == [T_WAIT])
-        second = None
-        if case["kind"] == "hook" and case["cfg"].get("second_run") and out[0] in ("ok", "exc"):
-            normal = dict({v: 0 for v in MODES.values()}, cursor=1, plain=0, cbreak=0)
-            second = {"out": ["ok"], "shown": [1], "started": False, "sig": list(case["cfg"].get("sig", [0, 0, 0])),
-                      "term": normal}
-        return {"out": out, "started": started, "ncb": ncb, "sig": sig, "term": term, "trace": trace,
+        # what the property demands where the model is silent: at every wait the terminal shows the widget
+        shown = [1] * sum(1 for t in trace[:ntr1] if t == [T_WAIT])
+        if second is not None:
+            second["shown"] = [1] * sum(1 for t in trace[ntr1:] if t == [T_WAIT])
+        return {"out": out, "started": started, "ncb": ncb, "sig": sig, "term": term, "trace": trace, "ntr1": ntr1,
                 "shown": shown, "second": second}
 
     # ---------- oracle (written from the property text; does not use the model) ----------
@@ -1257,7 +1276,7 @@ class C12(core.Check):
         cfg, wc = case["cfg"], case["widget"]
         if cfg.get("pop_ups") and not wc.get("has_mouse", True):
             return []          # PopUpTarget around a non-Widget: observation only (see distribution)
-        tr = res["trace"]
+        tr = res["trace"][:res.get("ntr1", len(res["trace"]))]     # (the first run; a second run follows it)
         plan = {int(k): v for k, v in case.get("plan", {}).items()}
         ncb = res["ncb"]
         fired = sorted(i for i in plan if i < ncb)
@@ -1355,7 +1374,7 @@ class C12(core.Check):
 
     def order(self, case, res, faulted):
         msgs = []
-        tr = res["trace"]
+        tr = res["trace"][:res.get("ntr1", len(res["trace"]))]     # (the first run; a second run follows it)
         rounds = expected_rounds(case)
         pos = 0                     # position in the trace
         last_cb_pos = None          # where the previous round with callbacks ended
@@ -1466,7 +1485,7 @@ class C12(core.Check):
         for k, v in plan.items():
             if int(k) < res.get("ncb", 0):
                 inc("fault_fired:" + ("exit" if v == 0 else ("raise_base_exception" if v >= BASE_EXC else "raise")))
-                tr = [t for t in res.get("trace", []) if t[0] in CB_TAGS]
+                tr = [t for t in res.get("trace", [])[:res.get("ntr1", 10 ** 9)] if t[0] in CB_TAGS]
                 if int(k) < len(tr):
                     inc("fault_at:" + {T_FILTER: "filter", T_KEYPRESS: "keypress", T_MOUSE: "mouse", T_UNHANDLED: "unhandled",
                                        T_ALARM: "alarm", T_PIPE: "pipe", T_FILE: "file", T_RENDER: "render",
